@@ -21,7 +21,8 @@ RULE = ("per-run seed -> a corpus of 40-300 documents over a 5-9 word vocabulary
         "MultiWeighting, ReverseWeighting, FunctionWeighting + knobs (ArrayUnionMatcher part size 4..2048). For each query and k in {1,2,3,5,10} the "
         "limited search is compared with the prefix of the exhaustive ranking computed on the same simulated state, with and "
         "without filter / mask / terms=True. Runs where neither block skipping nor matcher replacement engaged are counted "
-        "as trivial. distinct = distinct event-log SHA-256 x queries.")
+        "as trivial. distinct = distinct event-log SHA-256 x queries."
+        ' Extras include collapse (limited collapsed = head of unlimited collapsed); inlinelimit 1/3/8/20; replace 0/1/2/10/50; vocabulary drift with directed queries over exhausted Or branches.')
 ASSUMPTIONS = ["differential oracle: the exhaustive ranking search(q, limit=None) of the same searcher is the reference (its own correctness is C01/C09)",
                "scores are compared with relative tolerance 1e-9; the exhaustive ranking must itself be ordered by descending score, ascending document number",
                "the corpus and query dimensions are sampled workload; the simulator contributes segment layouts, deletion sets, block sizes and collector knobs"]
